@@ -206,7 +206,7 @@ def _maxrow():
 
 
 def _build_cel(c, r):
-    return c or '', str(r and int(r) or '')
+    return (c or '').upper(), str(r and int(r) or '')
 
 
 def _build_ref(c1, r1, c2, r2, anchor=''):
